@@ -225,6 +225,7 @@ fn cmd_worker(a: &Args) -> i32 {
     let mut truncated = false;
     let mut harness_errors = 0;
     let mut violations = 0u64;
+    let mut last_flush = std::time::Instant::now();
     use std::io::Write;
     let out = std::io::stdout();
     while index < count {
@@ -245,6 +246,16 @@ fn cmd_worker(a: &Args) -> i32 {
         }
         let ro = exec_run(def, &prop, tier, &profile, seed, i, None, &mut stats, journal.as_mut(), &scratch, false);
         let mut o = out.lock();
+        // progress report for the supervisor: used only if this worker dies before its final STAT
+        // (reporting only; nothing is decided by the clock)
+        if last_flush.elapsed().as_secs() >= 3 {
+            last_flush = std::time::Instant::now();
+            let mut pj = stats.to_json();
+            pj["samples"] = Value::Array(Vec::new());
+            pj["violations_total"] = Value::from(violations);
+            pj["partial"] = Value::Bool(true);
+            let _ = writeln!(o, "PSTAT {}", pj);
+        }
         if sampled {
             let _ = writeln!(o, "H {} {}", i, ro.trace.trace_hash.as_deref().unwrap_or(""));
         }
